@@ -122,6 +122,10 @@ class Case:
                     fn = {i: rng.choice(COEFS) for i in rng.sample(range(self.n_in), k)}
                     if rng.random() < 0.5:
                         fn["const"] = rng.choice([0.0, math.pi / 2, -math.pi, 0.25, -1.3, rng.uniform(-3, 3)])
+                    if rng.random() < 0.5:   # a dict has an order: the constant may be written first or in the middle
+                        items = list(fn.items())
+                        rng.shuffle(items)
+                        fn = dict(items)
             else:
                 fn = {gi: None}
             row = [0.0] * self.n_in
